@@ -287,7 +287,27 @@ def run(ctx):
                         if not kept or not others:
                             ctx.violation(f'force-backup-{driver}-{mode}-{en}-{nth}.json', dict(driver=driver, mode=mode, plan=plan, exit=r.cls, after=show(after), init=show(init), stderr=r.stderr[-300:]),
                                           f'C09: --force --backup={mode} on a destination whose open fails ({en}): the previous version exists nowhere afterwards (exit {r.cls}, {driver})')
-    ctx.cov['rule'] = ('histories: 3-7 invocations over 1-3 names (prefix-related, backup-looking, non-UTF-8, long) with initial backup sets incl. gaps, '
+        # --- the destination has SEVERAL NAMES (a hard-linked snapshot, `cp -al`): the version being replaced still goes to a
+        # numbered backup of THIS name, under every mode that asks for one
+        for driver in ('parfile', 'parblock'):
+            for mode in ('numbered', 'auto'):
+                init = {b'app.conf': b'OLD-CONF', b'README': b'old readme'}
+                if mode == 'auto':
+                    init[b'app.conf.~4~'] = b'older'
+                setup(root, init); put_source(root, b'app.conf', b'NEW-CONF-LONGER')
+                os.makedirs(root + '/snap', exist_ok=True)
+                try: os.unlink(root + '/snap/app.conf')
+                except OSError: pass
+                os.link(root + '/D/app.conf', root + '/snap/app.conf')
+                r = scen.run_xcp(root, [f'--backup={mode}', '--driver', driver, 'S/app.conf', 'D/app.conf'])
+                after = listing(root + '/D')
+                want = b'app.conf.~5~' if mode == 'auto' else b'app.conf.~1~'
+                ctx.count(f'multiply_linked_destination.{mode}.{r.cls}'); ctx.case(('multiply-linked-destination', driver, mode), True)
+                if r.cls == '0' and (after.get(want) != b'OLD-CONF' or after.get(b'app.conf') != b'NEW-CONF-LONGER'):
+                    ctx.violation(f'linked-destination-{driver}-{mode}.json', dict(driver=driver, mode=mode, exit=r.cls, after=show(after), init=show(init), stderr=r.stderr[-300:]),
+                                  f'C09: overwriting a destination that has a second hard link with --backup={mode}: expected the old version as {want.decode()}, directory holds {sorted(k.decode() for k in after)} ({driver})')
+                os.unlink(root + '/snap/app.conf')
+    ctx.cov['rule'] = ('a destination with a second hard link; histories: 3-7 invocations over 1-3 names (prefix-related, backup-looking, non-UTF-8, long) with initial backup sets incl. gaps, '
                        'numbers near 2^64, malformed numbers; kill before/after every mutating call of an overwrite; the backup rename failing with EIO/EPERM/ENAMETOOLONG/ENOSPC; versions of equal length and mtime; --force with an unopenable destination. distinct = distinct (history, driver) or kill point; '
                        'non-trivial = at least one non-none mode')
     ctx.assumptions += ['rename(2) is atomic', 'SIGKILL leaves exactly the effects of completed calls']
